@@ -760,6 +760,12 @@ class Table(Vector):
 		if not target_indices:
 			return # No columns selected, nothing to do
 
+		# A write that cannot be kept local is refused as a whole: find out before the
+		# first column is written, not after the columns in front of the shared one were
+		for col_idx in target_indices:
+			col = self._underlying[col_idx]
+			_ALIAS_TRACKER.check_writable(col, id(col._underlying))
+
 		# --- 3. Handle Assignment ---
 		
 		# CASE A: Scalar Assignment (Broadcast)
